@@ -159,23 +159,37 @@ pub fn common_assumptions() -> Vec<String> {
 }
 
 pub fn components_real(prop: &str) -> Vec<&'static str> {
+    let a = "http_serve::serve, range/etag/conditional logic, Body, ExactLenStream, MultipartStream (all of /repo/src as built from the working tree); http, http-body, httpdate, bytes crates";
+    let b = "http_serve::streaming_body, StreamingBodyBuilder, BodyWriter, chunker Writer/Reader, Body (real); flate2 + miniz_oxide (real, as http-serve's dependency); std::sync::Mutex behind the instrumented wrapper";
+    let c = "the same real writer/reader pair on two real OS threads; real std Mutex (try_lock) under the verif-hooks wrapper; real Waker plumbing";
+    let d = "http_serve::ChunkedReadFile, platform::read_at incl. the real pread(2) on real files of the local file system; serve() on top of it; tokio::task::block_in_place (outside a runtime: a plain call)";
     match prop {
-        "C01" | "C02" | "C06" | "C07" | "C12" | "C13" | "C14" | "C15" | "C20" => vec![
-            "http_serve::serve, range/etag/conditional logic, Body, ExactLenStream, MultipartStream (all of /repo/src as built from the working tree)",
-            "http, http-body, httpdate, bytes crates",
-        ],
+        "C01" | "C06" | "C07" | "C13" | "C14" => vec![a],
+        "C02" => vec![a, d],
+        "C08" | "C09" | "C17" => vec![b],
+        "C10" => vec![b, c],
+        "C11" => vec![b, c],
+        "C12" | "C20" => vec![a, b, c, d],
+        "C15" => vec![a, b],
+        "C18" => vec![d],
         _ => vec![],
     }
 }
 
 pub fn components_stub(prop: &str) -> Vec<&'static str> {
+    let a = "Entity (simulated storage with seeded chunking, Pending, faults); consumer in place of hyper (seeded policy, wakers, over-polling); wall clock (verif-hooks clock seam); no tokio runtime, no sockets";
+    let b = "producer (seeded write/flush/abort/drop program) and consumer in place of the application and hyper; the client's decoder is the harness's own inflater; per-thread counting allocator";
+    let c = "thread scheduling: a seeded baton scheduler decides who runs at every lock acquire/release and wake; wakers are harness objects";
+    let d = "file contents and metadata written by the harness; read seam (verif-hooks) injects truncation, extension, short reads, EINTR/EIO; system-call seam makes lseek/read/pread scheduling points in the concurrent part; no tokio runtime";
     match prop {
-        "C01" | "C02" | "C06" | "C07" | "C12" | "C13" | "C14" | "C15" | "C20" => vec![
-            "Entity (simulated storage with seeded chunking, Pending, faults)",
-            "consumer in place of hyper (seeded policy, wakers, over-polling)",
-            "wall clock (verif-hooks clock seam)",
-            "no tokio runtime, no sockets",
-        ],
+        "C01" | "C06" | "C07" | "C13" | "C14" => vec![a],
+        "C02" => vec![a, d],
+        "C08" | "C09" | "C17" => vec![b],
+        "C10" => vec![b, c],
+        "C11" => vec![b, c],
+        "C12" | "C20" => vec![a, b, c, d],
+        "C15" => vec![a, b],
+        "C18" => vec![d],
         _ => vec![],
     }
 }
